@@ -53,10 +53,13 @@ struct carquet_bloom_filter {
  */
 
 /**
- * Generate block index from hash.
+ * Generate block index from hash: the upper 32 bits of the hash scaled to
+ * [0, num_blocks) by multiply-shift, as the Parquet format specifies
+ * (i = ((hash >> 32) * num_blocks) >> 32), so that filters are interchangeable
+ * with other Parquet implementations.
  */
 static inline size_t bloom_filter_block_index(uint64_t hash, size_t num_blocks) {
-    return (size_t)((hash >> 32) % num_blocks);
+    return (size_t)(((hash >> 32) * (uint64_t)num_blocks) >> 32);
 }
 
 /**
